@@ -199,6 +199,9 @@ func brief(ops []op) string {
 func drawSeq(rt *rapid.T, h int) []op {
 	limit := uint64(1) << uint(h)
 	n := rapid.IntRange(1, 40).Draw(rt, "nops")
+	if h >= 16 {
+		n = rapid.IntRange(2, 10).Draw(rt, "nopsTall")
+	}
 	cur := uint64(0) // generator-side estimate of the index, only used to aim the classes
 	var ops []op
 	for i := 0; i < n; i++ {
@@ -209,7 +212,12 @@ func drawSeq(rt *rapid.T, h int) []op {
 			}
 			continue
 		}
-		cls := rapid.SampledFrom([]string{"same", "forward-small", "last", "forward-random", "back-one", "back-random", "limit", "limit+1", "2^31", "2^32-1", "beyond-random", "near-last"}).Draw(rt, "class")
+		classes := []string{"same", "forward-small", "last", "forward-random", "back-one", "back-random", "limit", "limit+1", "2^31", "2^32-1", "beyond-random", "near-last"}
+		if h >= 18 {
+			// a tall key: the index needs its third byte from 2^16 on
+			classes = append(classes, "around-2^16", "around-2^16", "around-2^16", "above-2^16", "above-2^16")
+		}
+		cls := rapid.SampledFrom(classes).Draw(rt, "class")
 		var j uint64
 		switch cls {
 		case "same":
@@ -234,6 +242,10 @@ func drawSeq(rt *rapid.T, h int) []op {
 			if cur > 0 {
 				j = rapid.Uint64Range(0, cur-1).Draw(rt, "j")
 			}
+		case "around-2^16":
+			j = 65534 + uint64(rapid.IntRange(0, 4).Draw(rt, "d"))
+		case "above-2^16":
+			j = rapid.Uint64Range(65536, limit-1).Draw(rt, "j")
 		case "limit":
 			j = limit
 		case "limit+1":
@@ -258,8 +270,9 @@ func drawSeq(rt *rapid.T, h int) []op {
 
 func TestCounterAutomaton(t *testing.T) {
 	r := ev.New(t, prop, "TestCounterAutomaton")
-	r.Rule("rapid op sequences (1..40 ops) over {Sign(m), SetIndex(j)} on one key; j drawn from classes {same, +1..3, last, near-last, random forward, back one, random back, 2^h, 2^h+1, 2^31, 2^32-1, random >= 2^h}; heights 4 (mostly), 6, and 8 / 10 in cheap-leaf mode (8: the exhausted index 256 no longer fits one byte); about 1/4 of cases use real hashing (signatures are then also verified); oracle = counter automaton + refusal leaves GetSK/GetIndex/full snapshot unchanged + identity getters constant + (seam) the authentication path stays the reference one; non-trivial = a sequence with a refused operation followed later by a successful signature, or one that exhausts the key and then tries again; distinct by op-sequence")
+	r.Rule("rapid op sequences (1..40 ops) over {Sign(m), SetIndex(j)} on one key; j drawn from classes {same, +1..3, last, near-last, random forward, back one, random back, 2^h, 2^h+1, 2^31, 2^32-1, random >= 2^h}; heights 4 (mostly), 6, and 8 / 10 / 18 in cheap-leaf mode (8: the exhausted index 256 no longer fits one byte; 18: every 200th case, with jumps around and above 2^16 where the index needs its third byte); about 1/4 of cases use real hashing (signatures are then also verified); oracle = counter automaton + refusal leaves GetSK/GetIndex/full snapshot unchanged + identity getters constant + (seam) the authentication path stays the reference one; non-trivial = a sequence with a refused operation followed later by a successful signature, or one that exhausts the key and then tries again; distinct by op-sequence")
 	checks := r.PerShard(r.Pick(6400, 96000))
+	nCase := 0
 	r.Rapid(t, "seq", checks, func(rt *rapid.T) {
 		c := &seqCase{Mode: "seam", Hash: uint(rapid.SampledFrom(pu.Hashes).Draw(rt, "hash")), H: rapid.SampledFrom([]int{4, 4, 4, 6, 10, 8, 8}).Draw(rt, "h")}
 		if seamOn == nil || rapid.IntRange(0, 15).Draw(rt, "real") == 0 {
@@ -276,6 +289,12 @@ func TestCounterAutomaton(t *testing.T) {
 			r.Count("keys_with_unsupported_hash_id", 1)
 		}
 		c.Seed = pu.DetBytes(uint64(rapid.IntRange(1, 3).Draw(rt, "seedId")), 48)
+		nCase++
+		if seamOn != nil && c.Mode == "seam" && nCase%200 == 100 {
+			// a key of height 18 (cheap-leaf mode): jumps around and above 2^16, where the stored index, the index
+			// field of the signature and GetIndex need their third byte
+			c.H, c.Seed = 18, pu.DetBytes(1, 48)
+		}
 		c.Ops = drawSeq(rt, c.H)
 		key, msg, st := runSeq(r, c)
 		r.Count("mode_"+c.Mode, 1)
